@@ -191,7 +191,7 @@ Proof.
 Qed.
 
 Section PulseSweep.
-  Variable pl : nat -> nat -> N -> N -> list cop.
+  Variable pl : nmap -> nat -> nat -> N -> N -> list cop.
 
   (* ---------------------------------------------------------------- PulseAux *)
 
@@ -201,7 +201,7 @@ Section PulseSweep.
     intros Hg H. unfold pulse_self in H.
     destruct (valid (nd s x) && N.leb (sched (nd s x)) now).
     - set (m1 := upd (nd s) x (set_npl (nd s x) (S (npl (nd s x))))) in *.
-      destruct (run_cops f m1 (pl x (npl (nd s x)) now (sched (nd s x)))) as [m2|] eqn:Hr; [|discriminate].
+      destruct (run_cops f m1 (pl m1 x (npl (nd s x)) now (sched (nd s x)))) as [m2|] eqn:Hr; [|discriminate].
       inversion H; subst s1. simpl.
       assert (Hg1 : Good G m1).
       { unfold m1. apply Good_scalar_upd;
@@ -247,11 +247,11 @@ Section PulseSweep.
 End PulseSweep.
 
 Section Sweeps.
-  Variable gt : nat -> nat -> N -> N -> N * list cop.
+  Variable gt : nmap -> nat -> nat -> N -> N -> N * list cop.
 
   (* ---------------------------------------------------------------- GetPulseTimeAux, GetPulseTime() performing no operations *)
 
-  Hypothesis gt_pure : forall x k now prev, snd (gt x k now prev) = [].
+  Hypothesis gt_pure : forall m x k now prev, snd (gt m x k now prev) = [].
 
   Lemma get_self_good G f s x now s1 :
     Good G (nd s) -> rn (cur (nd s x)) -> get_self gt f s x now = Some s1 ->
